@@ -3,6 +3,8 @@ package main
 
 import (
 	"flag"
+	"os"
+	"strings"
 	"time"
 
 	"verif/internal/ev"
@@ -26,10 +28,21 @@ func main() {
 		r.SetBudget(25 * time.Minute)
 	}
 	r.Rule = "threadgroup: every schedule (scheduling point before each Lock/Unlock/WaitGroup op of the real threadgroup.go, re-pointed at the scheduler-aware sync shim) of k workers {Add|AddContext; work; done} and s stoppers {Stop; Add} with at most B preemptions; distinct = distinct (admitted,rejected) outcome vectors per scenario"
-	runThreadgroup(r)
-	runSyncerLimits(r)
-	runPeerCapsAll(r)
-	r.Rule += "; syncer-slots: every maximal sequence of environment events {send(peer,rpc), release(peer,rpc), close} of the stated length per limit configuration (per-peer L, per-subnet M, peers per subnet), run step by step against a real syncer.Syncer whose RPCSendHeaders handlers park at a gate in the ChainManager, compared after every event with a reference model (which handlers must have started, which requests must have been dropped, which answered), exact high-water marks per peer and per subnet, Close must return with zero handlers running and Run must return; syncer-peercaps: every maximal sequence of {connect(i), handshake(i), drop(i), closeBegin, closeEnd} (listener Close latency decided by the environment) against a real Syncer: inbound peers <= MaxInboundPeers after every event, admission without contention, slots returned, Close/Run return, no peer or open connection left"
+	// VERIF_C18_PARTS (debugging aid): comma-separated subset of tg,slots,caps,rhp
+	part := func(n string) bool { p := os.Getenv("VERIF_C18_PARTS"); return p == "" || strings.Contains(p, n) }
+	if part("tg") {
+		runThreadgroup(r)
+	}
+	if part("slots") {
+		runSyncerLimits(r)
+	}
+	if part("caps") {
+		runPeerCapsAll(r)
+	}
+	if part("rhp") {
+		runRHPServerClose(r)
+	}
+	r.Rule += "; syncer-slots: every maximal sequence of environment events {send(peer,rpc), release(peer,rpc), close} of the stated length per limit configuration (per-peer L, per-subnet M, peers per subnet), run step by step against a real syncer.Syncer whose RPCSendHeaders handlers park at a gate in the ChainManager, compared after every event with a reference model (which handlers must have started, which requests must have been dropped, which answered), exact high-water marks per peer and per subnet, Close must return with zero handlers running and Run must return; syncer-peercaps: every maximal sequence of {connect(i), handshake(i), drop(i), closeBegin, closeEnd} (listener Close latency decided by the environment) against a real Syncer: inbound peers <= MaxInboundPeers after every event, admission without contention, slots returned, Close/Run return, no peer or open connection left; rhp-server-close: every maximal sequence of {start(i), finish(i), close} (3 RPCs, length 6; thorough 4/8) against the real rhp4.Server through Serve with the real client, handlers parked at the contractor lock: Close returns only after every admitted handler finished and does return then, RPCs issued after Close took effect are refused and never reach the contractor"
 	r.Explanation = "threadgroup part: iterative preemption bounding over the real ThreadGroup (see samples for per-scenario bounds); syncer parts: all event sequences up to the bound, each replayed on a fresh Syncer over an in-memory network, quiescence after each event observed at the connections/gate (no sleeps except a 20 ms settle after an empty teardown sweep). Configurations with a non-positive per-peer limit run in a child process so that a crash is reported as a violation."
 	r.Assumptions = append(r.Assumptions, "lock-granular interleavings only (memory-model effects are left to the separate -race pass)", "Go runtime, go.sia.tech/core trusted")
 	r.Finish()
